@@ -226,7 +226,8 @@ func c08Reset(f []string) []string {
 		panic(err)
 	}
 	stats.VerifC08NoSync(c.st)
-	c.st.Start()
+	// What Start does, minus the never-ending periodic-flush goroutine.
+	stats.VerifC08InitWeb(c.st)
 
 	engQ, err := aghnet.NewIgnoreEngine(ignQ)
 	if err != nil {
@@ -241,7 +242,7 @@ func c08Reset(f []string) []string {
 		BaseDir:           c.dir,
 		AnonymizeClientIP: anon,
 		RotationIvl:       24 * time.Hour,
-		MemSize:           4096,
+		MemSize:           256,
 		Enabled:           qlogOn,
 		FileEnabled:       true,
 		Ignored:           engQ,
@@ -249,13 +250,8 @@ func c08Reset(f []string) []string {
 	if err != nil {
 		panic(err)
 	}
-	ctx, cancel := context.WithCancel(context.Background())
-	cancel()
-	// Start registers the web handlers; the rotation goroutine sees a
-	// cancelled context.
-	if err = c.qlog.Start(ctx); err != nil {
-		panic(err)
-	}
+	// What Start does, minus the never-ending rotation goroutine.
+	querylog.VerifC08InitWeb(c.qlog)
 
 	c.srv, err = dnsforward.NewServer(dnsforward.DNSCreateParams{
 		Logger:     logger,
@@ -295,30 +291,57 @@ func c08Mem() []string {
 	return c08WithCount("M", items)
 }
 
+// c08ReadLogs returns the bytes of the rotated and the current log file.  The
+// query log's start-up rotation check runs in its own goroutine and may rename
+// the current file at any moment once; reading is repeated until two passes see
+// the same thing.
+func c08ReadLogs() (data []byte) {
+	read := func() (rot, cur []byte, errs string) {
+		var err error
+		rot, err = os.ReadFile(filepath.Join(c08.dir, "querylog.json.1"))
+		if err != nil && !os.IsNotExist(err) {
+			errs += err.Error()
+		}
+		cur, err = os.ReadFile(filepath.Join(c08.dir, "querylog.json"))
+		if err != nil && !os.IsNotExist(err) {
+			errs += err.Error()
+		}
+
+		return rot, cur, errs
+	}
+
+	for i := 0; i < 100; i++ {
+		rot1, cur1, errs := read()
+		rot2, cur2, _ := read()
+		if errs != "" {
+			panic("reading the log files: " + errs)
+		}
+		if bytes.Equal(rot1, rot2) && bytes.Equal(cur1, cur2) {
+			return append(rot1, cur1...)
+		}
+	}
+
+	panic("log files keep changing")
+}
+
 // c08File reads the flushed query-log file(s) line by line, oldest first.
 func c08File() []string {
 	var items []string
-	for _, name := range []string{"querylog.json.1", "querylog.json"} {
-		data, err := os.ReadFile(filepath.Join(c08.dir, name))
-		if err != nil {
+	for _, line := range bytes.Split(c08ReadLogs(), []byte("\n")) {
+		if len(bytes.TrimSpace(line)) == 0 {
 			continue
 		}
-		for _, line := range bytes.Split(data, []byte("\n")) {
-			if len(bytes.TrimSpace(line)) == 0 {
-				continue
-			}
-			var rec struct {
-				QH  string `json:"QH"`
-				CID string `json:"CID"`
-				IP  net.IP `json:"IP"`
-			}
-			if err = json.Unmarshal(line, &rec); err != nil {
-				items = append(items, "badline:"+vutil.Hex(string(line)))
-
-				continue
-			}
-			items = append(items, c08Entry(rec.QH, rec.IP, rec.CID))
+		var rec struct {
+			QH  string `json:"QH"`
+			CID string `json:"CID"`
+			IP  net.IP `json:"IP"`
 		}
+		if err := json.Unmarshal(line, &rec); err != nil {
+			items = append(items, "badline:"+vutil.Hex(string(line)))
+
+			continue
+		}
+		items = append(items, c08Entry(rec.QH, rec.IP, rec.CID))
 	}
 
 	return c08WithCount("F", items)
